@@ -579,7 +579,7 @@ PROP = Property(
           "= multiset signature of those events."),
     strategy=strategy,
     run_case=run_case,
-    budgets={"quick": 20000, "thorough": 300000},
+    budgets={"quick": 20000, "thorough": 150000},
     extra_tiers=[("sched", sched_tier)],
     assumptions=[
         "a listed PID that vanishes between the listing and its turn may be yielded or skipped",
